@@ -678,6 +678,9 @@ def c11_compare(case, verdict):
             return {"agree": None, "holds": None, "detail": "no trace", "skipped": True}
         # impl.trace (the solver's core solution) is the model's input; everything else is compared
         agree = {k_: v_ for k_, v_ in impl.items() if k_ != "trace"} == model
+    elif k == "csv":
+        # `reads` (the complete real reader on the imported document) exists on the real side only
+        agree = {k_: v_ for k_, v_ in impl.items() if k_ != "reads"} == model if isinstance(impl, dict) else False
     elif k == "fbits":
         # arbitrary float bit patterns: f64 text printing/parsing is out of model; only acceptance is compared,
         # the 1-ulp oracle is evaluated on the real output
@@ -707,19 +710,27 @@ def c11_nontrivial(case, v):
         acts = [a for t in tr.get("tours", []) for a in t.get("acts", [])]
         # a tour serves a multi-task job or an alternative place, or uses a reload / break
         return any(a.get("task", 0) > 0 or a.get("place", 0) > 0 or a.get("kind") in ("reload", "break") for a in acts)
+    if k == "csv":
+        ids = [r.get("id") for r in case.get("jobs", [])]
+        profiles = [r.get("profile") for r in case.get("vehicles", [])]
+        # rows sharing a job id, or vehicle rows sharing a profile
+        return len(set(ids)) < len(ids) or len(set(profiles)) < len(profiles)
     return True
 
 
 def c11_extra_evidence(cases, verdicts):
     hyp_in = sum(1 for c in cases if c.get("k") == "init" and (verdicts.get(c["id"]) or {}).get("hyp") is True)
     hyp_out = sum(1 for c in cases if c.get("k") == "init" and (verdicts.get(c["id"]) or {}).get("hyp") is False)
-    return {"init_cases_inside_theorem_hypotheses": hyp_in, "init_cases_outside_hypotheses_model_only": hyp_out}
+    csv_in = sum(1 for c in cases if c.get("k") == "csv" and (verdicts.get(c["id"]) or {}).get("hyp") is True)
+    csv_out = sum(1 for c in cases if c.get("k") == "csv" and (verdicts.get(c["id"]) or {}).get("hyp") is False)
+    return {"init_cases_inside_theorem_hypotheses": hyp_in, "init_cases_outside_hypotheses_model_only": hyp_out,
+            "csv_cases_inside_TablesOk": csv_in, "csv_cases_outside_TablesOk_model_only": csv_out}
 
 
 PROP = dict(
-    proof_modules=["VrpProofs.C11", "VrpProofs.C11.Init"],
-    model_modules=["VrpModel.C11", "VrpModel.C11Init", "VrpModel.Generated.C11Schema", "VrpProofs.C11.Codec",
-                   "VrpProofs.C11.Safe", "VrpProofs.C11.WF"],
+    proof_modules=["VrpProofs.C11", "VrpProofs.C11.Init", "VrpProofs.C11.Csv"],
+    model_modules=["VrpModel.C11", "VrpModel.C11Init", "VrpModel.C11Csv", "VrpModel.Generated.C11Schema",
+                   "VrpProofs.C11.Codec", "VrpProofs.C11.Safe", "VrpProofs.C11.WF"],
     drv="drv_c11", bin="c11",
     translators=[translator_T1],
     compare=c11_compare,
